@@ -30,6 +30,16 @@ def run_case(run, drv, ts_mod, rng, case, max_len):
     # a third of the spectra carry energy up to and beyond the Nyquist frequency fs/2
     top = rng.choice([0.45, 0.45, 0.8]) * fs
     f = np.sort(np.unique(np.round(np.array([rng.uniform(0.02 * fs, top) for _ in range(nf)]) * 4096) / 4096.0))
+    same_count = L <= 80 and rng.random() < 0.35
+    if same_count:
+        # an input that already has as many bins as the FFT grid (nfft/2) but on another grid: a periodogram without the
+        # zero bin, or a geometric grid - it still has to be resampled
+        nb = (int(L) // 2) * 2 // 2
+        if rng.random() < 0.5:
+            f = (np.arange(nb) + 1.0) * (fs / (2 * nb))
+        else:
+            f = 0.02 * fs * (0.45 / 0.02) ** (np.arange(nb) / max(nb - 1, 1))
+        run.count("input_with_nfft_half_bins")
     run.count("energy_beyond_nyquist" if top > 0.5 * fs else "energy_below_nyquist")
     if len(f) < 3:
         return
@@ -58,7 +68,10 @@ def run_case(run, drv, ts_mod, rng, case, max_len):
             step = probe.direction_step.values
             E = np.zeros((len(f), nd))
             E[:, j] = e1 / step[j]
-            spec, meta = sp.make_2d(rng, layout="scalar", f=f, d=d, E=E, depth_mode="deep")
+            lead = rng.random() < 0.35      # the same spectrum with a leading dimension of length one
+            spec, meta = sp.make_2d(rng, layout="time" if lead else "scalar", f=f, d=d, E=E[None] if lead else E, depth_mode="deep")
+            if lead:
+                run.count("leading_dimension_of_one")
             theta = math.radians(d[j])
         else:
             mom = tuple(np.zeros((len(f),)) for _ in range(4))
@@ -69,7 +82,11 @@ def run_case(run, drv, ts_mod, rng, case, max_len):
         run.count("2d" if two_d else "1d")
         run.count("comp_" + comp)
         run.count("even" if L % 2 == 0 else "odd")
+        def one(series):
+            a = np.asarray(series)
+            return a[0] if (a.ndim == 2 and a.shape[0] == 1) else a      # one series per spectrum of the leading dimension
         t, z = ts_mod.surface_timeseries(comp, fs, L, spec, seed=seed)
+        z = one(z)
         nfft = (int(L) // 2) * 2
         run.case("series", key=(case, comp, L, seed))
         info = dict(component=comp, fs=fs, signal_length=L, seed=seed, two_d=two_d, f=f.tolist(), e=[None if x != x else float(x) for x in e1], directions=d.tolist() if two_d else None)
@@ -92,6 +109,8 @@ def run_case(run, drv, ts_mod, rng, case, max_len):
             th = rs.radian_direction.values
             Ev = np.nan_to_num(rs.variance_density.values)
             shape = Ev.shape
+            if Ev.ndim == 3 and Ev.shape[0] == 1:
+                Ev = Ev[0]
         else:
             area = rs.frequency_step.values[:, None]
             th = np.array([0.0])
@@ -120,17 +139,20 @@ def run_case(run, drv, ts_mod, rng, case, max_len):
                           dict(info, got=got_var, want=want_var))
         # reproducibility and scaling
         t2, z2 = ts_mod.surface_timeseries(comp, fs, L, spec, seed=seed)
+        z2 = one(z2)
         if not np.array_equal(z, z2):
             run.violation("identical seeds give different series", info)
         t3, z3 = ts_mod.surface_timeseries(comp, fs, L, spec, seed=seed + 1)
+        z3 = one(z3)
         if want_var > 0 and np.array_equal(z, z3):
             run.violation("different seeds give identical series", info)
         c = rng.choice([4.0, 0.25, 9.0, 1e-4, 1e-8, 1e6])
         if two_d:
-            spec_c, _ = sp.make_2d(rng, layout="scalar", f=f, d=d, E=E * c, depth_mode="deep")
+            spec_c, _ = sp.make_2d(rng, layout="time" if lead else "scalar", f=f, d=d, E=(E * c)[None] if lead else E * c, depth_mode="deep")
         else:
             spec_c, _ = sp.make_1d(rng, layout="scalar", f=f, e=e1 * c, moments=mom, depth_mode="deep")
         t4, z4 = ts_mod.surface_timeseries(comp, fs, L, spec_c, seed=seed)
+        z4 = one(z4)
         if not np.allclose(z4, math.sqrt(c) * z, rtol=1e-10, atol=1e-12 * math.sqrt(c) * np.max(np.abs(z))):
             run.violation("scaling the spectrum by c does not scale the series by sqrt(c)", dict(info, c=c))
         if case < 3:
